@@ -346,6 +346,9 @@ func runCase(c Case) (fail string) {
 		req.InitialValue = v
 		return checkResponse(graphql.Execute(req))
 	default:
+		// apifu installs its own idle handler, which only knows promises made by apifu.Go/Batch:
+		// raw promises of the world would never be fulfilled, so HTTP cases resolve synchronously
+		w.async = false
 		var hr *http.Request
 		switch c.Entry {
 		case "http-get":
@@ -393,6 +396,22 @@ func runCase(c Case) (fail string) {
 }
 
 type harnessBug string
+
+var digitsRe = regexp.MustCompile(`0x[0-9a-f]+|[0-9]+`)
+
+// signature groups failures: panic message + first library frame, or the message with numbers removed.
+func signature(fail string) string {
+	lines := strings.Split(fail, "\n")
+	s := lines[0]
+	if strings.HasPrefix(fail, "panic") && len(lines) > 1 {
+		s += " @ " + lines[1]
+	}
+	s = digitsRe.ReplaceAllString(s, "N")
+	if len(s) > 160 {
+		s = s[:160]
+	}
+	return s
+}
 
 func firstFrames(st string) string {
 	lines := strings.Split(st, "\n")
@@ -490,10 +509,26 @@ func main() {
 	from := flag.Int("from", 0, "")
 	to := flag.Int("to", 0, "")
 	one := flag.Int("one", -1, "run exactly this case index and print the outcome")
+	dumpSites := flag.Bool("dump-panic-sites", false, "print the panic-site inventory of $VERIF_REPO as JSON and exit")
 	run := hx.Init("C03")
+	run.MaxPerKey = 40 // failures are de-duplicated by signature below
 	perCase := 25 * time.Second
 	if *isWorker {
 		worker(run.Seed, *from, *to, perCase)
+		return
+	}
+	repo := os.Getenv("VERIF_REPO")
+	if repo == "" {
+		repo = "/repo"
+	}
+	if *dumpSites {
+		inv, err := inventory(repo)
+		if err != nil {
+			fmt.Fprintln(os.Stderr, err)
+			os.Exit(2)
+		}
+		b, _ := json.MarshalIndent(inv, "", " ")
+		fmt.Println(string(b))
 		return
 	}
 	if *one >= 0 {
@@ -531,6 +566,7 @@ func main() {
 	jobs := make(chan job, 1024)
 	var mu sync.Mutex
 	var wg sync.WaitGroup
+	sigSeen := map[string]int{}
 	record := func(l line, c Case) {
 		mu.Lock()
 		defer mu.Unlock()
@@ -543,6 +579,12 @@ func main() {
 			run.Count("slow>2s")
 		}
 		if l.Fail != "" {
+			sg := signature(l.Fail)
+			run.Count("failure:" + sg)
+			if sigSeen[sg] >= 2 {
+				return
+			}
+			sigSeen[sg]++
 			kind := "property"
 			if strings.HasPrefix(l.Fail, "panic") || strings.HasPrefix(l.Fail, "crash") || strings.HasPrefix(l.Fail, "hang") {
 				kind = "crash"
@@ -627,6 +669,15 @@ func main() {
 	}
 	close(jobs)
 	wg.Wait()
+	nSites, missing, err := checkInventory(repo, run.VerifDir+"/checks/C03.panicsites.json")
+	if err != nil {
+		run.Oblige("panic-site inventory of the anchored files matches the discharged table", "srcfact", nSites, false, err.Error())
+	} else {
+		run.Oblige("panic-site inventory of the anchored files matches the discharged table", "srcfact", nSites, len(missing) == 0, strings.Join(missing, "; "))
+		if len(missing) > 0 && run.Violations() == 0 {
+			run.Violate("correspondence", "panic-capable sites without a discharged row in checks/C03.panicsites.json (new unchecked assertion / panic / reflect call): "+strings.Join(missing, "; "), "", true, map[string]interface{}{"undischarged_sites": missing})
+		}
+	}
 	run.Oblige("oracle: returns normally (no panic / fatal / stall), response serialises, null-or-absent data ⇒ errors", "oracle", total, run.Violations() == 0, "see violations")
 	run.Finish(nil)
 }
